@@ -19,6 +19,7 @@ import ALV.Lemmas.C13Contract
 import ALV.Lemmas.C13Hist
 import ALV.Lemmas.C13Call
 import ALV.Lemmas.C13Thub
+import ALV.Lemmas.C13Src
 import Mathlib.Analysis.SpecialFunctions.Trigonometric.Inverse
 import Mathlib.Analysis.SpecialFunctions.Trigonometric.Bounds
 import ALV.Common.Audit
@@ -1643,6 +1644,79 @@ theorem gammatone_every_section_stable (f bw : ℝ) (h0 : 0 < f) (h1 : f < Real.
     fun s hs => (m3 s hs).2.2.2.2.2.2.2.2 p⟩
 
 -- 14b: the z_exp hypothesis at f = π/2 (every bandwidth): see the example of 5e above
+
+/-! ## 15. The strategy bodies REGENERATED from the source are the transcribed programs
+
+`ALV/Gen/C13Src.lean` is rewritten on every run by `harness/props/c13_tr.py` from the text of
+`audiolazy/lazy_filters.py` / `lazy_auditory.py` (read with `ast`): one Lean definition per thub-based strategy
+body (`x = thub(x, 2)` assignments with their counts, the arithmetic, `z ** -k`, `cos / sin / sqrt / exp`, the
+`el if el else 1` idiom, klapuri's list of strategy references and its cascade of calls).  The theorems below
+say that each of them IS the hand transcription of `ALV/Model/C13Thub.lean` — as functions of the hub base and
+of the argument expressions — so that sections 13 and 1–12 (through `progOf_at`: the scalar design formulas of
+`ALV/Model/C13.lean` are the programs instant by instant) speak about what the source says now.  An edit of a
+strategy body that changes its meaning breaks the corresponding `src_…_is_model`. -/
+
+theorem src_lowpass_pole_is_model : ALV.Gen.C13.lowpass_pole = lowpassPoleS := Src.lowpass_pole
+theorem src_lowpass_z_is_model : ALV.Gen.C13.lowpass_z = lowpassZS := Src.lowpass_z
+theorem src_lowpass_pole_exp_is_model : ALV.Gen.C13.lowpass_pole_exp = lowpassPoleExpS := Src.lowpass_pole_exp
+theorem src_lowpass_z_exp_is_model : ALV.Gen.C13.lowpass_z_exp = lowpassZExpS := Src.lowpass_z_exp
+theorem src_highpass_pole_is_model : ALV.Gen.C13.highpass_pole = highpassPoleS := Src.highpass_pole
+theorem src_highpass_z_is_model : ALV.Gen.C13.highpass_z = highpassZS := Src.highpass_z
+theorem src_highpass_pole_exp_is_model : ALV.Gen.C13.highpass_pole_exp = highpassPoleExpS := Src.highpass_pole_exp
+theorem src_highpass_z_exp_is_model : ALV.Gen.C13.highpass_z_exp = highpassZExpS := Src.highpass_z_exp
+theorem src_resonator_poles_exp_is_model : ALV.Gen.C13.resonator_poles_exp = resonatorPolesExpS :=
+  Src.resonator_poles_exp
+theorem src_resonator_freq_poles_exp_is_model : ALV.Gen.C13.resonator_freq_poles_exp = resonatorFreqPolesExpS :=
+  Src.resonator_freq_poles_exp
+theorem src_resonator_z_exp_is_model : ALV.Gen.C13.resonator_z_exp = resonatorZExpS := Src.resonator_z_exp
+theorem src_resonator_freq_z_exp_is_model : ALV.Gen.C13.resonator_freq_z_exp = resonatorFreqZExpS :=
+  Src.resonator_freq_z_exp
+theorem src_comb_fb_is_model : ALV.Gen.C13.comb_fb = combFbS := Src.comb_fb
+theorem src_comb_tau_is_model : ALV.Gen.C13.comb_tau = combTauS := Src.comb_tau
+theorem src_comb_ff_is_model : ALV.Gen.C13.comb_ff = combFfS := Src.comb_ff
+theorem src_gammatone_klapuri_is_model : ALV.Gen.C13.gammatone_klapuri = klapuriS := Src.gammatone_klapuri
+
+/-- **C13.15a** the regenerated dispatch `design kind ↦ stream program` is the model's, for every kind (every
+comb delay) -/
+theorem src_progOf_is_model (kind : Kind) : ALV.Gen.C13.progOf kind = progOf kind := Src.progOf kind
+
+/-- **C13.15b** the same for the closed programs (arguments `par 0`, `par 1`; comb delays 0 … 3), by the decision
+procedure of `DecidableEq SSec` instead of unfolding -/
+theorem src_programs_decide :
+    ([Kind.lowpass .pole, .lowpass .z, .lowpass .poleExp, .lowpass .zExp,
+      .highpass .pole, .highpass .z, .highpass .poleExp, .highpass .zExp,
+      .resonator .polesExp, .resonator .freqPolesExp, .resonator .zExp, .resonator .freqZExp,
+      .combFb 0, .combFb 1, .combFb 3, .combTau 0, .combTau 2, .combFf 0, .combFf 3, .klapuri].all
+        fun k => decide (ALV.Gen.C13.progOf k = progOf k)) = true := Src.progOf_decide
+
+/-- **C13.15c** theorem 13a about the REGENERATED bodies: the tee-hub machine run on what the source says,
+for every strategy, every pair of argument sequences, every schedule of reads, shows — after `Poly`'s "a zero
+NUMBER is not stored" — the constant design (`ALV/Model/C13.lean`: the formulas sections 1–12 are about) of
+the instant's values. -/
+theorem src_reads_are_constant_designs {α : Type} [TrigField α] [ZeroTest α] (kind : Kind) (v1 v2 : List α)
+    (sched : List ℕ) :
+    (runReads (argSeq v1 v2) (ALV.Gen.C13.progOf kind) sched Pos.init).map trimmed
+      = constReads kind v1 v2 [] sched := by
+  rw [src_progOf_is_model]; exact thub_reads_are_constant_designs kind v1 v2 sched
+
+/-- **C13.15d** the scalar design formulas ARE the regenerated bodies instant by instant: section `j` of the
+regenerated program of a kind, every leaf at its `k`-th value, is section `j` of `designOf kind` (lowpass /
+highpass / resonator / comb / klapuri of `ALV/Model/C13.lean`, the definitions the driver's Float twin runs)
+at value number `k` of each argument. -/
+theorem src_instants_are_the_design_formulas {α : Type} [TrigField α] [ZeroTest α] (kind : Kind) (v1 v2 : List α)
+    (k : ℕ) :
+    (ALV.Gen.C13.progOf kind).map (fun s => trimmed (secAt (argSeq v1 v2) k s))
+      = designOf kind (cyc v1 k) (cyc v2 k) := by
+  rw [src_progOf_is_model]; exact progOf_at kind v1 v2 k
+
+/-- **C13.15e** theorem 13b about the regenerated bodies: the source uses its tee hubs correctly (one reader per
+iterator object, of a hub declared with `n` copies exactly `n` are taken). -/
+theorem src_programs_wellformed (kind : Kind) :
+    wfDesign (ALV.Gen.C13.progOf kind) = true ∧ Linear (ALV.Gen.C13.progOf kind) := by
+  rw [src_progOf_is_model]; exact thub_programs_wellformed kind
+
+-- 15c / 15d on a concrete input: lowpass.pole regenerated, read twice with a two-valued cut-off Stream
+example : (runReads (argSeq [(1 : Float), 2] [0.5]) (ALV.Gen.C13.progOf (.lowpass .pole)) [0, 0] Pos.init).length = 2 := rfl
 
 end ALV.Props.C13
 
